@@ -37,7 +37,7 @@ MANIFEST = {
     'technique': 'runtime monitoring in the virtual-clock lab: reload through the real main loop, UPDATEs seen by a scripted remote speaker replayed into a reference table; enumerated per-line faults of the new file with before/after state snapshots',
     'text': 'Configuration pairs and per-line broken variants are reloaded into the running real reactor; success must converge the peer '
     'to the new table, failure must leave neighbors, routes, peers, FSM and Adj-RIB-Out snapshots identical, the session up and the API working.',
-    'note': 'trusted base: refwire decoder + PeerTable; snapshots are str() of the real objects taken inside the lab process; parser exceptions injected by failpoints are not part of this version',
+    'note': 'trusted base: refwire decoder + PeerTable; snapshots are str() of the real objects taken inside the lab process; parser exceptions are injected at enumerated statements of the reload by a sys.monitoring LINE failpoint',
 }
 SHARD_TIMEOUT = {'quick': 900, 'thorough': 3000}
 
@@ -155,6 +155,18 @@ def failure_cases(r, tier):
         steps += [['sleep', 3.0], ['snapshot', 'after'], ['mark', 'after-reload'], ['api', 'peer * announce route 172.16.50.0/24 next-hop 192.0.2.2 med 5'], ['sleep', 0.5], ['wait_quiet', 1.5, 10.0], ['mark', 'end']]
         out.append({'config': conf(old), 'steps': steps, 'vtimeout': 300.0, 'wall': 100.0, 'quantum': 0.0005, 'fault': fault, 'line': line, 'expect': 'failure-or-success', 'new': new, 'old': old, 'text': text})
     return out
+
+
+def failpoint_case(k: int, exc: str = 'RuntimeError'):
+    """a VALID new file whose parsing is interrupted by an exception at the k-th statement executed under
+    exabgp/configuration/ (k = 0: counting run, the reload succeeds)"""
+    old = list(BASE)
+    new = [x for i, x in enumerate(BASE) if i != 1] + [('10.9.9.0/24', '192.0.2.1', 2)]
+    good_new = scen.config_text(conf(new), 0).replace('connect 0;', 'connect @PORT@;')
+    steps = [['accept', 30.0], ['establish'], ['wait_quiet', 1.0, 20.0], ['api', 'peer * announce route 172.16.1.0/24 next-hop 192.0.2.2 med 9'], ['sleep', 0.5], ['wait_quiet', 1.0, 20.0], ['snapshot', 'before'], ['mark', 'reload']]
+    steps += [['failpoint', k, exc], ['reload', good_new]]
+    steps += [['sleep', 3.0], ['snapshot', 'after'], ['mark', 'after-reload'], ['api', 'peer * announce route 172.16.50.0/24 next-hop 192.0.2.2 med 5'], ['sleep', 0.5], ['wait_quiet', 1.5, 10.0], ['mark', 'end']]
+    return {'config': conf(old), 'steps': steps, 'vtimeout': 300.0, 'wall': 100.0, 'quantum': 0.0005, 'fault': f'failpoint:{exc}', 'line': k, 'expect': 'failure-or-success', 'new': new, 'old': old, 'text': good_new, 'failpoint': k}
 
 
 def all_cases(tier, seed):
@@ -298,6 +310,20 @@ def judge_failure(res, case, rec):
         res.inconclusive.append(f'{cls}: Configuration.reload() was never called after the reload request')
         return
     failed = not reloads[0]['ok']
+    if case.get('failpoint'):
+        fp = [e for e in rec['events'] if e['kind'] == 'failpoint']
+        if not fp or not fp[0]['fired']:
+            res.inconclusive.append(f'{cls}: failpoint {case["failpoint"]} never fired')
+            return
+        wit['failpoint'] = fp[0]
+        res.extra.setdefault('failpoint_sites', [])
+        if fp[0]['fired'] not in res.extra['failpoint_sites']:
+            res.extra['failpoint_sites'].append(fp[0]['fired'])
+        if not failed:
+            # the exception was absorbed by a handler inside the parser and the reload went on: what the file then means is
+            # no longer what was written, nothing can be judged
+            res.count('failpoint-absorbed-by-the-parser')
+            return
     sess = rec['sessions'][0]
     t_reload = marks['reload']['t']
     t_after = marks['after-reload']['t']
@@ -345,12 +371,31 @@ def judge_failure(res, case, rec):
         res.count('no-done-seen-after-failed-reload')
     res.ok(cls, (case['fault'], 'line' if case['line'] >= 0 else 'file'))
     res.ok('fault-kind:' + case['fault'].split(':')[0])
+    if case.get('failpoint'):
+        res.ok('failpoint-position:' + str(min(9, 10 * case['failpoint'] // max(1, res.extra.get('failpoint_statements_in_clean_reload', [1])[0]))))
 
 
 def run_shard(desc):
     res = Result()
     cases = all_cases(desc['tier'], desc['seed'])
     mine = [c for i, c in enumerate(cases) if i % desc['nshards'] == desc['shard']]
+    # parser exceptions at enumerated statements of the reload (source-free failpoints): one counting run per shard, then a spread of k
+    status, rec = scen.run_case(failpoint_case(0))
+    total = 0
+    if status == 'ok':
+        fp = [e for e in rec['events'] if e['kind'] == 'failpoint']
+        total = fp[0]['lines'] if fp else 0
+    if total < 50:
+        res.inconclusive.append(f'failpoint counting run saw {total} statements (status {status})')
+    else:
+        res.extra['failpoint_statements_in_clean_reload'] = [total]
+        r = random.Random(desc['seed'] * 99991 + desc['shard'])
+        nk = 3 if desc['tier'] == 'quick' else 40
+        # stratified over the run: shard s takes the s-th sixteenth of every stratum
+        for j in range(nk):
+            lo = total * (j * desc['nshards'] + desc['shard']) // (nk * desc['nshards'])
+            hi = max(lo + 1, total * (j * desc['nshards'] + desc['shard'] + 1) // (nk * desc['nshards']))
+            mine.append(failpoint_case(r.randrange(lo, hi) + 1, 'KeyError' if (j + desc['shard']) % 3 == 0 else 'RuntimeError'))
     for case in mine:
         status, rec = scen.run_case(case)
         if status != 'ok':
@@ -369,6 +414,6 @@ def run_shard(desc):
 
 
 REQUIRED_CLASSES = {
-    'quick': ['change:remove', 'change:add', 'change:same', 'change:param+remove', 'adj-rib-out:false', 'state:up', 'state:down', 'fault-kind:line', 'fault-kind:file-removed'],
+    'quick': ['change:remove', 'change:add', 'change:same', 'change:param+remove', 'adj-rib-out:false', 'state:up', 'state:down', 'fault-kind:line', 'fault-kind:file-removed', 'fault-kind:failpoint'],
 }
 REQUIRED_CLASSES['thorough'] = REQUIRED_CLASSES['quick']
